@@ -261,7 +261,7 @@ pub fn sized_read_request(handle: u32, target: usize, rng: &mut Rng) -> ReadRequ
     let mut i = 0u32;
     while size < target {
         let remaining = target - size;
-        let slen = remaining.min(200).saturating_sub(22).max(1);
+        let slen = remaining.min(1500).saturating_sub(22).max(1);
         let mut s = String::with_capacity(slen);
         for _ in 0..slen {
             s.push((b'a' + rng.below(26) as u8) as char);
